@@ -187,6 +187,13 @@ def run(sim):
                 d.errback(Boom("pre", did))
             elif phase == "before" and not late:
                 m.pending.add(did)
+            if beh == "dnew":
+                if sim.draw_bool(0.25, "called_but_pending"):
+                    # hand out a Deferred that has already been called back but whose callback chain waits on `d` (no result until `d` fires)
+                    sim.probe("trigger_returned_called_but_pending_deferred")
+                    _outer = defer.succeed(None)
+                    _outer.addCallback(lambda _ignored, d=d: d)
+                    return _outer
             return d
         return None
 
